@@ -23,6 +23,8 @@ type lsOpts struct {
 	DbRes bool `json:"db_resource,omitempty"`
 	// PoRes serves templates and menu labels through resource.PoResource (gettext catalogues on disk).
 	PoRes bool `json:"po_resource,omitempty"`
+	// DbResFs: resource.DbResource over db/fs in a scratch directory, translations stored as <symbol>_<code>.
+	DbResFs bool `json:"db_resource_fs,omitempty"`
 	// First gives the engine a first function (engine.WithFirst) that does nothing.
 	First bool `json:"first_function,omitempty"`
 	Cfg   engine.Config
@@ -89,6 +91,13 @@ func lockstepEnv(a *app.App, o lsOpts, inputs []string, pick func(label string, 
 	if o.DbRes {
 		s.Res = app.NewDbRes(a, s.Env)
 	}
+	if o.DbResFs {
+		scratchSeq++
+		dir := filepath.Join(mc.Scratch(), fmt.Sprintf("dbres%d", scratchSeq))
+		os.MkdirAll(dir, 0o700)
+		defer os.RemoveAll(dir)
+		s.Res = app.NewDbResFs(a, s.Env, dir)
+	}
 	if o.PoRes {
 		scratchSeq++
 		dir := filepath.Join(mc.Scratch(), fmt.Sprintf("po%d", scratchSeq))
@@ -140,7 +149,7 @@ func lockstepEnv(a *app.App, o lsOpts, inputs []string, pick func(label string, 
 			if len(funcCalls(got.Calls)) != 0 {
 				return "external-call-while-terminated", fmt.Sprintf("%s: external functions %v called while TERMINATE is set", where, funcCalls(got.Calls)), reqs
 			}
-			if len(got.Calls) != 0 && !o.DbRes && !o.PoRes {
+			if len(got.Calls) != 0 && !o.DbRes && !o.PoRes && !o.DbResFs {
 				// "running nothing": not even a template or menu lookup (a render attempt) is made for a blocked request
 				return "lookup-while-terminated", fmt.Sprintf("%s: the blocked request made resource lookups %v", where, got.Calls), reqs
 			}
@@ -177,7 +186,7 @@ func lockstepEnv(a *app.App, o lsOpts, inputs []string, pick func(label string, 
 			}
 			continue
 		}
-		if o.DbRes {
+		if o.DbRes || o.DbResFs {
 			// static symbols are served by the DbResource itself and are not recorded as calls
 			var kept []string
 			for _, cl := range want.Calls {
